@@ -4,20 +4,26 @@
 
   Setting: `devs` are the members of one group with the state `init` leaves them in (`Fresh`: every FMMU entity
   disabled — `members_fresh` shows that `Net.members` is such a list); `start` is the group's logical start
-  address, `maxPdi` its declared capacity. Theorems are proved for the overflow-checking build
-  (`Mode.checked`); `release_agrees_with_debug` transfers every one of them to the wrapping build for all inputs
-  on which the checking build does not panic. The inputs on which it does panic are a finding
-  (`bit_length_overflow_counterexample`).
+  address, `maxPdi` its declared capacity. Theorems are stated for the overflow-checking build
+  (`Mode.checked`); `configuration_total` shows that for EVERY PDO configuration the Rust types allow the
+  configuration never panics and computes the same outcome in the wrapping build, so every one of them holds
+  in both build modes (`release_agrees_with_debug` is the hypothesis-free one-directional form).
 
-  Four places where the code as it stands does NOT satisfy the property are kept visible as `_counterexample`
+  Three places where the code as it stands does NOT satisfy the property are kept visible as `_counterexample`
   theorems next to the `_partial` theorem that excludes exactly that class:
     * CoE path, several sync managers of one direction share one FMMU     → hypothesis `SharedContig`
     * EEPROM path, FMMU number := sync manager number                      → hypothesis `FmmuAvail`
     * a group whose configuration fails keeps its FMMUs programmed          → hypothesis "the other group fits"
-    * u16 bit-length sums                                                   → `Mode.checked` result is `ok`
+  A fourth one — PDO bit lengths summed, multiplied by the oversampling factor and rounded in `u16`
+  (c08/pdo-bit-length-u16-overflow: panic in checked builds, silently short windows in wrapping builds) — is
+  REPAIRED: the sums are `u64`, the byte length is converted with `u16::try_from(..)?`. The former
+  `bit_length_overflow_counterexample` is replaced by the full statements `configuration_total`,
+  `exact_windows_or_error`, `network_total` and `registers_representable`; the old witnesses are kept as
+  `bit_length_overflow_fixed`.
 -/
-import EcModel.Lemmas.ConfigGroup
+import EcModel.Lemmas.ConfigTotal
 import EcModel.Generated.Layouts
+import EcModel.Generated.Config
 
 namespace Ec.C08
 open Ec Ec.Config
@@ -49,7 +55,7 @@ theorem trace_summary {start : Nat} {t : Trace} (h0 : ∀ k, (t.st0.regs.fmmu k)
     t.st2.hasCoe = t.st0.hasCoe ∧
     t.b - t.a = windowLenSpec t.d t.st2.hasCoe .input ∧ t.e - t.c = windowLenSpec t.d t.st2.hasCoe .output ∧
     (FmmuAvail t.d t.st2.hasCoe → SharedContig t.d t.st2.regs t.st2.hasCoe → MapsExactly start (t.d, t.st2)) := by
-  obtain ⟨d1, d2, d3, d4, d5, d6, d7, d8, d9, _, _, _, d13⟩ := device_spec h0 hok.1 hok.2
+  obtain ⟨d1, d2, d3, d4, d5, d6, d7, d8, d9, _, _, _, _, d13⟩ := device_spec h0 hok.1 hok.2
   refine ⟨d1, d2, d3, d4, d5, d6, d7, by rw [d7]; exact d8, by rw [d7]; exact d9, ?_⟩
   intro hav hct w a p
   rw [d7] at hav hct
@@ -169,10 +175,10 @@ theorem image_length {start : Nat} {devs : List (Device × DevState)} {g : Group
 
 /-- A layout that does not fit the declared capacity is an error — `PdiTooLong` with the capacity and the
     length the layout needs (`image_length`) — and never a success. -/
-theorem too_long_is_error {start maxPdi : Nat} {devs : List (Device × DevState)} {g : GroupLayout}
-    (h : groupLayout .checked start devs = .ok g) :
-    (maxPdi < g.pdiLen → groupConfigureFmmus .checked start maxPdi devs = .err (.pdiTooLong maxPdi g.pdiLen)) ∧
-    (g.pdiLen ≤ maxPdi → groupConfigureFmmus .checked start maxPdi devs = .ok g) := by
+theorem too_long_is_error {m : Mode} {start maxPdi : Nat} {devs : List (Device × DevState)} {g : GroupLayout}
+    (h : groupLayout m start devs = .ok g) :
+    (maxPdi < g.pdiLen → groupConfigureFmmus m start maxPdi devs = .err (.pdiTooLong maxPdi g.pdiLen)) ∧
+    (g.pdiLen ≤ maxPdi → groupConfigureFmmus m start maxPdi devs = .ok g) := by
   unfold groupConfigureFmmus
   rw [h]
   simp only [Config.bind, checkLen]
@@ -192,7 +198,7 @@ theorem fmmus_byte_aligned {start : Nat} {devs : List (Device × DevState)} {g :
   intro x hx
   rw [t2] at hx
   obtain ⟨t, ht, rfl⟩ := List.mem_map.1 hx
-  exact (device_spec (trace_fresh hf t1 ht) (t3 t ht).1 (t3 t ht).2).2.2.2.2.2.2.2.2.2.2.2.1
+  exact (device_spec (trace_fresh hf t1 ht) (t3 t ht).1 (t3 t ht).2).2.2.2.2.2.2.2.2.2.2.2.2.1
 
 /-- PARTIAL (full statement: without the two hypotheses; see the two counterexamples below).
     Provided every FMMU entity the MainDevice chose exists in the controller (`FmmuAvail`) and — CoE path — the
@@ -360,11 +366,156 @@ theorem groups_isolated {s1 s2 : Nat} {devs1 devs2 : List (Device × DevState)} 
     have := translations_inside_group hf1 h1 hx hax hcx w a p hp
     omega
 
+/-! ## Sync manager lengths -/
+
+/-- Every process-data sync manager is programmed with exactly the byte length ITS OWN PDOs require:
+    ⌈(Σ PDO bits × oversampling) / 8⌉, an exact natural number — no `u16` wrap-around (this is the per-sync-manager
+    form of `window_length`; before the repair of c08/pdo-bit-length-u16-overflow it was false in wrapping
+    builds: 81 600 bits gave 2 008 bytes). -/
+theorem sm_length_exact {start : Nat} {devs : List (Device × DevState)} {g : GroupLayout}
+    (hf : Fresh devs) (h : groupLayout .checked start devs = .ok g) :
+    ∀ x ∈ g.devs, ∀ y ∈ enumFrom 0 x.1.sms, ∀ dir : Dir, y.2.usageType = dir.smType →
+      (x.2.regs.sm y.1).len = (smBitsSpec x.1 x.2.hasCoe dir y.1 + 7) / 8 := by
+  obtain ⟨ts, p1, p2, t1, t2, t3, _⟩ := group_spec hf h
+  intro x hx
+  rw [t2] at hx
+  obtain ⟨t, ht, rfl⟩ := List.mem_map.1 hx
+  obtain ⟨_, _, _, _, _, _, d7, _, _, _, _, d12, _⟩ := device_spec (trace_fresh hf t1 ht) (t3 t ht).1 (t3 t ht).2
+  intro y hy dir hyt
+  simp only [d7]
+  exact d12 y hy dir hyt
+
+/-- The lengths programmed into sync managers and FMMUs fit their 16-bit registers (`Regs.Rep`): the natural
+    numbers of the model ARE the register contents. Holds in both build modes, for every layout that was
+    programmed (also one that is then rejected as too long). -/
+theorem registers_representable {m : Mode} {start : Nat} {devs : List (Device × DevState)} {g : GroupLayout}
+    (hr : ∀ x ∈ devs, x.2.regs.Rep) (h : groupLayout m start devs = .ok g) :
+    ∀ x ∈ g.devs, ∀ k, (x.2.regs.sm k).len < 65536 ∧ (x.2.regs.fmmu k).length < 65536 :=
+  fun x hx k => groupLayout_rep hr h x hx k
+
+/-- … and the state `init` leaves the devices in satisfies the hypothesis of `registers_representable`. -/
+theorem members_representable {n : Net} (hty : ∀ x ∈ n.devices, x.1.TypesOk) (slot : Nat) :
+    ∀ x ∈ n.members slot, x.2.regs.Rep := by
+  intro x hx
+  unfold Net.members at hx
+  obtain ⟨y, hy, rfl⟩ := List.mem_map.1 hx
+  exact initDev_rep (hty y (List.mem_filter.1 hy).1)
+
+/-! ## Totality: every PDO configuration ends in a layout or an error, the same in both build modes -/
+
+/-- FULL STATEMENT (replaces `bit_length_overflow_counterexample`). For EVERY group of devices whose
+    descriptions fit the Rust types they are read into (`Device.TypesOk`: u16 PDO bit lengths and oversampling
+    factors, u8 mapping lengths and counts, at most 64 PDOs per direction — nothing else: any number of sync
+    managers, any sums) and whose logical range stays inside the `u32` address space (a device takes at most
+    2 × 8 × 65 535 = 1 048 560 bytes, so this admits 4 000 devices per group), configuring the group NEVER PANICS
+    and gives THE SAME OUTCOME — the same layout and registers, or the same error — in the overflow-checking
+    and in the wrapping build. -/
+theorem configuration_total {start maxPdi : Nat} {devs : List (Device × DevState)}
+    (hty : ∀ x ∈ devs, x.1.TypesOk) (hsz : start + 1048560 * devs.length < 4294967296) :
+    (∀ m w, groupConfigureFmmus m start maxPdi devs ≠ .panic w) ∧
+    (∀ m, groupConfigureFmmus m start maxPdi devs = groupConfigureFmmus .checked start maxPdi devs) ∧
+    (∀ m w, groupLayout m start devs ≠ .panic w) ∧
+    (∀ m, groupLayout m start devs = groupLayout .checked start devs) := by
+  obtain ⟨c1, c2⟩ := groupConfigureFmmus_safe maxPdi hty hsz
+  obtain ⟨l1, l2⟩ := groupLayout_safe hty hsz
+  have c2' : ∀ m, groupConfigureFmmus m start maxPdi devs = groupConfigureFmmus .checked start maxPdi devs := c2
+  have l2' : ∀ m, groupLayout m start devs = groupLayout .checked start devs := l2
+  exact ⟨fun m w => by rw [c2' m]; exact c1 w, c2', fun m w => by rw [l2' m]; exact l1 w, l2'⟩
+
+/-- FULL STATEMENT of the length clause: in either build mode, configuring a group EITHER returns an error
+    OR yields a layout inside the declared capacity in which every device's input and output window has exactly
+    the byte length its PDO configuration (CoE or EEPROM, times oversampling) requires and every process-data
+    sync manager exactly ⌈its bits / 8⌉ bytes, a length its 16-bit register can hold. Never a panic, never a
+    silently shortened window. -/
+theorem exact_windows_or_error {start maxPdi : Nat} {devs : List (Device × DevState)} (hf : Fresh devs)
+    (hr : ∀ x ∈ devs, x.2.regs.Rep)
+    (hty : ∀ x ∈ devs, x.1.TypesOk) (hsz : start + 1048560 * devs.length < 4294967296) (m : Mode) :
+    (∃ e, groupConfigureFmmus m start maxPdi devs = .err e) ∨
+    ∃ g, groupConfigureFmmus m start maxPdi devs = .ok g ∧ g.pdiLen ≤ maxPdi ∧
+      ∀ x ∈ g.devs,
+        x.2.input.2 - x.2.input.1 = windowLenSpec x.1 x.2.hasCoe .input ∧
+        x.2.output.2 - x.2.output.1 = windowLenSpec x.1 x.2.hasCoe .output ∧
+        ∀ y ∈ enumFrom 0 x.1.sms, ∀ dir : Dir, y.2.usageType = dir.smType →
+          (x.2.regs.sm y.1).len = (smBitsSpec x.1 x.2.hasCoe dir y.1 + 7) / 8 ∧
+          (smBitsSpec x.1 x.2.hasCoe dir y.1 + 7) / 8 < 65536 := by
+  obtain ⟨np, ag, _, _⟩ := configuration_total (maxPdi := maxPdi) hty hsz
+  rw [ag m]
+  cases hc : groupConfigureFmmus .checked start maxPdi devs with
+  | err e => exact Or.inl ⟨e, rfl⟩
+  | panic w => exact absurd hc (np .checked w)
+  | ok g =>
+    right
+    obtain ⟨hl, hmax⟩ := configure_ok_iff.1 hc
+    refine ⟨g, rfl, hmax, ?_⟩
+    intro x hx
+    obtain ⟨w1, w2⟩ := window_length hf hc x hx
+    refine ⟨w1, w2, ?_⟩
+    intro y hy dir hyt
+    have e := sm_length_exact hf hl x hx y hy dir hyt
+    exact ⟨e, by rw [← e]; exact (registers_representable hr hl x hx y.1).1⟩
+
+/-- A configuration that CANNOT be programmed — some process-data sync manager would need more than 65 535
+    bytes, more than its length register holds — always ends in an error (`Err.intConv`,
+    `Error::IntegerTypeConversion`, or an earlier error of the same group), in both build modes. Before the
+    repair such a configuration panicked or was programmed with the length modulo 2¹⁶. -/
+theorem unrepresentable_length_is_error {start maxPdi : Nat} {devs : List (Device × DevState)} (hf : Fresh devs)
+    (hr : ∀ x ∈ devs, x.2.regs.Rep)
+    (hty : ∀ x ∈ devs, x.1.TypesOk) (hsz : start + 1048560 * devs.length < 4294967296)
+    {x : Device × DevState} (hx : x ∈ devs) {y : Nat × SmDesc} (hy : y ∈ enumFrom 0 x.1.sms) {dir : Dir}
+    (hyt : y.2.usageType = dir.smType) (hbig : 65536 ≤ (smBitsSpec x.1 x.2.hasCoe dir y.1 + 7) / 8) (m : Mode) :
+    ∃ e, groupConfigureFmmus m start maxPdi devs = .err e := by
+  rcases exact_windows_or_error (maxPdi := maxPdi) hf hr hty hsz m with he | ⟨g, hg, _, hw⟩
+  · exact he
+  · exfalso
+    obtain ⟨_, ag, _, _⟩ := configuration_total (maxPdi := maxPdi) hty hsz
+    rw [ag m] at hg
+    obtain ⟨hl, _⟩ := configure_ok_iff.1 hg
+    obtain ⟨ts, p1, p2, t1, t2, t3, _⟩ := group_spec hf hl
+    rw [← t1] at hx
+    obtain ⟨t, ht, rfl⟩ := List.mem_map.1 hx
+    have hmem : (t.d, t.st2) ∈ g.devs := by rw [t2]; exact List.mem_map_of_mem (f := fun t => (t.d, t.st2)) ht
+    have hcoe : t.st2.hasCoe = t.st0.hasCoe :=
+      (trace_summary (trace_fresh hf t1 ht) (t3 t ht)).2.2.2.2.2.2.1
+    have h2 : (smBitsSpec t.d t.st0.hasCoe dir y.1 + 7) / 8 < 65536 := by
+      simpa [hcoe] using ((hw _ hmem).2.2 y hy dir hyt).2
+    exact Nat.lt_irrefl _ (Nat.lt_of_lt_of_le h2 hbig)
+
+
+/-- FULL STATEMENT for a whole network (`init`'s start addresses, then `into_safe_op` on every group): no
+    panic anywhere, the same result in both build modes — per group the same layout or the same error. The
+    size hypothesis admits 3 855 devices; the property's networks have at most 16 (`network_total_16`). -/
+theorem network_total {n : Net} (hty : ∀ x ∈ n.devices, x.1.TypesOk)
+    (hsz : 65535 * n.devices.length + 1048560 * n.devices.length < 4294967296) :
+    (∀ m w, configNet m n ≠ .panic w) ∧ (∀ m, configNet m n = configNet .checked n) ∧
+    ∀ m res, configNet m n = .ok res → ∀ u ∈ res, ∀ w, u.2.2 ≠ .panic w := by
+  obtain ⟨⟨s1, s2⟩, s3⟩ := configNet_safe hty hsz
+  have s2' : ∀ m, configNet m n = configNet .checked n := s2
+  refine ⟨fun m w => by rw [s2' m]; exact s1 w, s2', ?_⟩
+  intro m res h
+  rw [s2' m] at h
+  exact s3 res h
+
+/-- The networks of the property (1..16 devices, any split into groups, any MAX_PDI). -/
+theorem network_total_16 {n : Net} (hty : ∀ x ∈ n.devices, x.1.TypesOk) (h16 : n.devices.length ≤ 16) :
+    (∀ m w, configNet m n ≠ .panic w) ∧ (∀ m, configNet m n = configNet .checked n) ∧
+    ∀ m res, configNet m n = .ok res → ∀ u ∈ res, ∀ w, u.2.2 ≠ .panic w := by
+  refine network_total hty ?_
+  have a := Nat.mul_le_mul_left 65535 h16
+  have b := Nat.mul_le_mul_left 1048560 h16
+  have ka : (65535 : Nat) * 16 = 1048560 := by decide
+  have kb : (1048560 : Nat) * 16 = 16776960 := by decide
+  rw [ka] at a
+  rw [kb] at b
+  generalize 65535 * n.devices.length = X at a ⊢
+  generalize 1048560 * n.devices.length = Y at b ⊢
+  omega
+
 /-! ## Overflow-checking build and wrapping build -/
 
 /-- Whenever the overflow-checking (debug) build configures a group without panicking, the wrapping (release)
-    build computes exactly the same result — error or success, same windows, same registers. Hence every
-    theorem above also holds for `Mode.wrapping` on those inputs. -/
+    build computes exactly the same result — error or success, same windows, same registers. Needs no
+    hypothesis on the descriptions at all; `configuration_total` is the two-directional statement (and shows
+    that the checking build does not panic) for every description the Rust types allow. -/
 theorem release_agrees_with_debug (m : Mode) {start maxPdi : Nat} {devs : List (Device × DevState)} :
     (∀ g, groupConfigureFmmus .checked start maxPdi devs = .ok g → groupConfigureFmmus m start maxPdi devs = .ok g) ∧
     (∀ g, groupLayout .checked start devs = .ok g → maxPdi < g.pdiLen →
@@ -418,6 +569,25 @@ def bigIn : Device :=
   { mailbox := {}, sms := [smD 0x1000 0x00 4], fmmuUsage := [2], fmmuEx := [],
     txPdos := [⟨0x1a00, 0, 16320⟩, ⟨0x1a01, 0, 16320⟩, ⟨0x1a02, 0, 16320⟩, ⟨0x1a03, 0, 16320⟩, ⟨0x1a04, 0, 16320⟩],
     rxPdos := [], coe := fun _ => none, oversampling := [], fmmuCount := 8 }
+
+/-- 2 TxPDO entries of 64 bit, oversampling factor 512: 65 536 bits. -/
+def osIn : Device :=
+  { mailbox := {}, sms := [smD 0x1000 0x00 4], fmmuUsage := [2], fmmuEx := [], txPdos := [⟨0x1a00, 0, 128⟩],
+    rxPdos := [], coe := fun _ => none, oversampling := [(0x1a00, 512)], fmmuCount := 8 }
+
+/-- `n` TxPDOs of 255 entries × 255 bit (the largest PDO an EEPROM can describe) on one sync manager. -/
+def hugeIn (n : Nat) : Device :=
+  { mailbox := {}, sms := [smD 0x1000 0x00 4], fmmuUsage := [2], fmmuEx := [],
+    txPdos := (List.range n).map fun j => ⟨0x1a00 + j, 0, 65025⟩,
+    rxPdos := [], coe := fun _ => none, oversampling := [], fmmuCount := 8 }
+
+/-- A CoE device with two output sync managers of 40 000 bytes each (one 250-bit mapping, oversampling 1280). -/
+def coeBig : Device :=
+  { mailbox := { recvSize := 64, sendSize := 64, protocols := 4 }
+    sms := [smD 0x1000 0x26 1, smD 0x1080 0x22 2, smD 0x1100 0x64 3, smD 0xad40 0x64 3]
+    fmmuUsage := [1, 2, 3], fmmuEx := [], txPdos := [], rxPdos := []
+    coe := fun i => if i = 2 then some [⟨0x1600, [250]⟩] else if i = 3 then some [⟨0x1601, [250]⟩] else none
+    oversampling := [(0x1600, 1280), (0x1601, 1280)], fmmuCount := 8 }
 
 def fresh1 (d : Device) : List (Device × DevState) := [(d, initDev d)]
 
@@ -529,15 +699,29 @@ theorem failed_group_keeps_fmmus_counterexample :
       (fun x => fmmuMap x.2.regs.fmmu x.1.fmmuCount true 1) = [[0x0f00]] := by
   refine ⟨by decide, by decide, by decide⟩
 
-/-- COUNTEREXAMPLE (u16 bit-length arithmetic; inside the property's quantifier: 5 PDOs of 255 × 64-bit entries
-    on one sync manager = 81 600 bits = 10 200 bytes, MAX_PDI 65 535). The overflow-checking build panics in
-    `configure_pdos_eeprom` (`.sum()` of u16) — neither the layout nor `PdiTooLong` — and the wrapping build
-    silently configures a window of 2 008 bytes instead of the 10 200 the PDO configuration requires. -/
-theorem bit_length_overflow_counterexample :
-    isPanic (groupConfigureFmmus .checked 0 65535 (fresh1 bigIn)) = true ∧
-    onLayout (groupConfigureFmmus .wrapping 0 65535 (fresh1 bigIn))
-      (fun x => (x.2.input, windowLenSpec x.1 x.2.hasCoe .input)) = [((0, 2008), 10200)] := by
-  refine ⟨by decide, by decide⟩
+/-- FIXED (was `bit_length_overflow_counterexample`: 5 PDOs of 255 × 64-bit entries on one sync manager =
+    81 600 bits = 10 200 bytes, MAX_PDI 65 535; the overflow-checking build panicked in `configure_pdos_eeprom`
+    (`.sum()` of u16) and the wrapping build silently configured 2 008 bytes). Both builds now configure the
+    10 200 bytes the PDO configuration requires; with a capacity of 4 000 bytes both return `PdiTooLong`
+    with the true length. Likewise 2 × 64 bit × oversampling 512 = 65 536 bits = 8 192 bytes. -/
+theorem bit_length_overflow_fixed :
+    (∀ m : Mode, onLayout (groupConfigureFmmus m 0 65535 (fresh1 bigIn))
+      (fun x => (x.2.input, windowLenSpec x.1 x.2.hasCoe .input, (x.2.regs.sm 0).len, (x.2.regs.fmmu 0).length))
+        = [((0, 10200), 10200, 10200, 10200)]) ∧
+    (∀ m : Mode, errOf (groupConfigureFmmus m 0 4000 (fresh1 bigIn)) = some (.pdiTooLong 4000 10200)) ∧
+    (∀ m : Mode, onLayout (groupConfigureFmmus m 0 65535 (fresh1 osIn))
+      (fun x => (x.2.input, windowLenSpec x.1 x.2.hasCoe .input)) = [((0, 8192), 8192)]) := by
+  refine ⟨fun m => by cases m <;> decide, fun m => by cases m <;> decide, fun m => by cases m <;> decide⟩
+
+/-- Where the arithmetic now ends in an error instead: a sync manager of 9 × 65 025 bits = 73 154 bytes does not
+    fit the 16-bit length register (`Err.intConv`), in both builds; 8 × 65 025 bits = 65 025 bytes still does. A
+    CoE device whose two output sync managers (40 000 bytes each) share one FMMU overflows the FMMU length
+    (`checked_add`): `Err.intConv` as well, in both builds. -/
+theorem unrepresentable_lengths_are_errors :
+    (∀ m : Mode, errOf (groupConfigureFmmus m 0 65535 (fresh1 (hugeIn 9))) = some .intConv) ∧
+    (∀ m : Mode, onLayout (groupConfigureFmmus m 0 65535 (fresh1 (hugeIn 8))) (fun x => x.2.input) = [(0, 65025)]) ∧
+    (∀ m : Mode, errOf (groupConfigureFmmus m 0 65535 (fresh1 coeBig)) = some .intConv) := by
+  refine ⟨fun m => by cases m <;> decide, fun m => by cases m <;> decide, fun m => by cases m <;> decide⟩
 
 /-! ## Non-vacuity: concrete configurations satisfying all hypotheses -/
 
@@ -557,6 +741,22 @@ example :
       (fun x => (decide (Contig 0x1100 (smRanges x.1 x.2.regs .output)), decide (Contig 0x1400 (smRanges x.1 x.2.regs .input)),
                  fmmuMap x.2.regs.fmmu x.1.fmmuCount true 312, fmmuMap x.2.regs.fmmu x.1.fmmuCount false 300))
       = [(true, false, [], [0x1000]), (true, true, [0x1102], []), (false, true, [], [])] := by decide
+
+/-- `Device.TypesOk` is satisfiable by exactly the descriptions one expects: the witnesses of the repaired
+    overflow — the largest PDOs an EEPROM can describe, an oversampling factor of 512 — satisfy it, so
+    `configuration_total` / `exact_windows_or_error` / `unrepresentable_length_is_error` apply to them. -/
+example : bigIn.TypesOk ∧ osIn.TypesOk ∧ (hugeIn 9).TypesOk ∧ plainIn.TypesOk :=
+  ⟨⟨by decide, by decide, by decide, by decide, by intro i pdos h; simp [bigIn] at h⟩,
+   ⟨by decide, by decide, by decide, by decide, by intro i pdos h; simp [osIn] at h⟩,
+   ⟨by decide, by decide, by decide, by decide, by intro i pdos h; simp [hugeIn] at h⟩,
+   ⟨by decide, by decide, by decide, by decide, by intro i pdos h; simp [plainIn] at h⟩⟩
+
+/-- The hypotheses of `exact_windows_or_error` hold for the state `init` leaves a device in. -/
+example : ∀ x ∈ fresh1 bigIn, x.2.regs.Rep := by
+  intro x hx
+  simp only [fresh1, List.mem_singleton] at hx
+  subst hx
+  exact initDev_rep ⟨by decide, by decide, by decide, by decide, by intro i pdos h; simp [bigIn] at h⟩
 
 example : FmmuAvail (coeDev 0x1102 0x1403) true := fmmuAvail_coe (by decide)
 example : FmmuAvail plainIn false := fmmuAvail_eeprom (by decide)
@@ -602,6 +802,24 @@ theorem t1_register_layouts :
       "physical_start_address", "physical_start_bit", "read_enable", "write_enable", "enable"] ∧
     fieldNames.lookup "SyncManagerChannel" = some ["physical_start_address", "length_bytes", "control", "status", "enable"] ∧
     S_Fmmu.bytes = some 16 ∧ S_SyncManagerChannel.bytes = some 8 := by
+  decide
+
+open Ec.Gen.Config in
+/-- The arithmetic the model does is the arithmetic of the source (regenerated from
+    `src/subdevice/configuration.rs`, `src/pdi.rs`, `src/eeprom/types.rs`, `src/subdevice/mod.rs` on every run): the PDO
+    bit lengths are accumulated and multiplied in `u64` (`U64`) from `u8` / `u16` operands, both paths convert the
+    byte length with `u16::try_from(bits.div_ceil(8))?` (`lenBytes`), no `(x + 7) / 8` on a bit length is left, the
+    shared FMMU is extended with `checked_add` (`extendLen`) and the offset advances by the programmed byte length.
+    Reverting the repair of c08/pdo-bit-length-u16-overflow breaks this theorem (and the extractor reports the
+    missing shapes) before any failing input is searched for. -/
+theorem t1_config_arithmetic :
+    SM_BIT_LEN_BITS = 64 ∧ PDO_BIT_LEN_BITS = 64 ∧ MAPPING_WIDENED_TO_BITS = 64 ∧
+    COE_OVERSAMPLING_WIDENED_TO_BITS = 64 ∧ EEPROM_SUM_BITS = 64 ∧ EEPROM_PRODUCT_BITS = 64 ∧
+    U64 = 2 ^ SM_BIT_LEN_BITS ∧
+    PDO_BIT_LEN_FIELD_BITS = 16 ∧ OVERSAMPLING_FACTOR_BITS = 16 ∧ SM_LENGTH_REGISTER_BITS = 16 ∧
+    U16 = 2 ^ SM_LENGTH_REGISTER_BITS ∧
+    byteLenCheckedConversions = 2 ∧ plusSevenRoundings = 0 ∧ fmmuExtendChecked = 1 ∧ fmmuExtendUnchecked = 0 ∧
+    offsetAdvancesByProgrammedLength = 1 ∧ offsetAdvancesByBits = 0 ∧ incrementByteAlignedDivCeil = 1 := by
   decide
 
 end Ec.C08
